@@ -186,6 +186,9 @@ PROPS = {
              "update / set-admin / init failed in turn (ENOSPC/EIO/EACCES/EMFILE) — whenever the operation still reports "
              "success, durableAtAck is evaluated on the faulted run's trace. Round 6: suite c09r — one Dir used for a warm-up change of every kind, the base directory replaced (or not) behind its back, one more operation under strace -y: the directory fsync must reach the directory that holds the entry. Round 7: suite v09u — the agent under strace -f -y: the rewrites of local hash upgrades are fsynced before the rename, the directory after it.",
         trusted=["the standard abstract persistence model", "strace output and the Go trace parser", T_GO],
+        partial=["a base directory that is replaced under a running store and the agent's own rewrites (local hash "
+                 "upgrades) are judged on the real system calls (suites c09r, v09u: strace -y), not through the Lean "
+                 "persistence model, which has no event for a directory that changes its name"],
     ),
     "C14": dict(
         modules=["Whawty.Props.C14", "Whawty.Props.GenSalt", "Whawty.Props.GenFiles"],
